@@ -3,6 +3,7 @@ package actionlint
 import (
 	"encoding/json"
 	"fmt"
+	"sort"
 	"strconv"
 	"strings"
 )
@@ -821,7 +822,13 @@ func (sema *ExprSemanticsChecker) checkBuiltinFuncCall(n *FuncCallNode, sig *Fun
 			delete(holders, i) // forget it to check unused placeholders
 		}
 
+		// Report the rest of placeholders in ascending order. Iteration order of map is random
+		rest := make([]int, 0, len(holders))
 		for i := range holders {
+			rest = append(rest, i)
+		}
+		sort.Ints(rest)
+		for _, i := range rest {
 			sema.errorf(n, "format string %q contains placeholder {%d} but only %d arguments are given to format", lit.Value, i, l)
 		}
 	case "fromjson":
